@@ -177,6 +177,16 @@ class Net(Part):
                          [["leave", x], ["activate", 1, 0, "1", 0]] if x != 1 else [["leave", 1], ["activate", 0, 0, "1", 0]],
                          [["deactivate", 0, y, 0, "1"], ["activate", 2, 0, "1", 1]]):
                 cases.append({"input": {"kinds": kinds, "ops": base + tail}, "class": "boundary_spawn_known"})
+        # ---- late joiners after something was taken away again: activate, a join (the members have
+        # built and sent their topology once), deactivate or leave of the host, then a further join
+        for host in (0, 1):
+            for away in ("deactivate", "leave_host"):
+                for extra in ([], [["activate", 0, 1, "7", 0]]):
+                    ops = pre + [["activate", 0, 0, "1", host], ["join", 2]]
+                    ops += [["deactivate", 2, -1, 0, "1"]] if away == "deactivate" else [["leave", host]]
+                    ops += extra + [["join", 3]]
+                    if valid(ops):
+                        cases.append({"input": {"kinds": [[0, 1], [0, 1], [1], [0]], "ops": ops}, "class": "late_joiner_after_removal"})
         # ---- random
         nrand = 260 if tier == "quick" else 6000
         for r in range(nrand):
